@@ -41,11 +41,14 @@ pub struct GenGeom {
     /// (0x28: only the volume id follows; any other value: none of the three fields)
     #[serde(default)]
     pub ext_sig: u8,
+    /// FAT32, non-zero: the root directory starts in the k-th cluster from the end (1 = the very last cluster)
+    #[serde(default)]
+    pub root_from_end: u8,
 }
 
 impl Default for GenGeom {
     fn default() -> Self {
-        GenGeom { rsvd: 1, mirror_off: None, root_cluster: 2, high_nibbles: false, fsinfo: 1, bkboot: 6, eoc: 7, media: 0xF8, pad_garbage: false, label: false, stray_active: 0, fat1: 0, fatsz: 0, ext_sig: 0 }
+        GenGeom { rsvd: 1, mirror_off: None, root_cluster: 2, high_nibbles: false, fsinfo: 1, bkboot: 6, eoc: 7, media: 0xF8, pad_garbage: false, label: false, stray_active: 0, fat1: 0, fatsz: 0, ext_sig: 0, root_from_end: 0 }
     }
 }
 
@@ -108,6 +111,7 @@ pub fn mkfs(p: &MkfsParams) -> Result<Store, String> {
     } else {
         fat_size(p.fat, bps, spc, rsvd, nfats, root_secs, total).ok_or("volume too small")?
     };
+    let root_cluster: u32 = if p.gg.root_from_end > 0 { (clusters + 2 - p.gg.root_from_end as u64) as u32 } else { p.gg.root_cluster };
     let width = if clusters < 4085 {
         12
     } else if clusters < 65525 {
@@ -154,7 +158,7 @@ pub fn mkfs(p: &MkfsParams) -> Result<Store, String> {
         };
         put16(&mut b, 40, ext);
         put16(&mut b, 42, 0);
-        put32(&mut b, 44, p.gg.root_cluster);
+        put32(&mut b, 44, root_cluster);
         put16(&mut b, 48, p.gg.fsinfo);
         put16(&mut b, 50, p.gg.bkboot);
         64
@@ -235,13 +239,13 @@ pub fn mkfs(p: &MkfsParams) -> Result<Store, String> {
     }
     // root directory
     if width == 32 {
-        if p.gg.root_cluster as u64 > g.clusters + 1 {
+        if root_cluster as u64 > g.clusters + 1 || root_cluster < 2 {
             return Err("root cluster out of range".into());
         }
         for c in 0..nfats {
-            set_fat(&mut st, &g, c, p.gg.root_cluster, eoc);
+            set_fat(&mut st, &g, c, root_cluster, eoc);
         }
-        st.write_at(g.cluster_off(p.gg.root_cluster), &vec![0u8; g.cluster_size() as usize]);
+        st.write_at(g.cluster_off(root_cluster), &vec![0u8; g.cluster_size() as usize]);
         // FS-info
         if p.gg.fsinfo != 0 && (p.gg.fsinfo as u64) < rsvd {
             let mut f = vec![0u8; bps as usize];
@@ -259,7 +263,7 @@ pub fn mkfs(p: &MkfsParams) -> Result<Store, String> {
         let mut e = [0u8; 32];
         e[..11].copy_from_slice(b"GENLABEL   ");
         e[11] = 0x08;
-        let off = if width == 32 { g.cluster_off(p.gg.root_cluster) } else { g.root_off() };
+        let off = if width == 32 { g.cluster_off(root_cluster) } else { g.root_off() };
         st.write_at(off, &e);
     }
     // inactive copies hold garbage when mirroring is off
